@@ -131,5 +131,10 @@ if __name__=="__main__":
         n=int(sys.argv[2]); s0=int(sys.argv[3]) if len(sys.argv)>3 else 0
         for i in range(n): print("f%d\t%s"%(i,genf(s0+i)))
         sys.exit(0)
+    if sys.argv[1]=="d":
+        # the same histories for the `hdir` runner (directory exact in every Up state)
+        n=int(sys.argv[2]); s0=int(sys.argv[3]) if len(sys.argv)>3 else 0
+        for i in range(n): print("d%d\thdir%s"%(i,gen(s0+i)[4:]))
+        sys.exit(0)
     n=int(sys.argv[1]); s0=int(sys.argv[2]) if len(sys.argv)>2 else 0
     for i in range(n): print("h%d\t%s"%(i,gen(s0+i)))
